@@ -586,6 +586,205 @@ theorem c13_with_root_first (ro : List Member) (p : Nat) (r : List Member) (h : 
       simp [hkey]
   · simp at h
 
+/-! ### the text forms of keys of other suites (server and node identifiers of every suite) -/
+
+theorem decAscii_lt (n : Nat) (h : n < 10) : decAscii n = [48 + n] := by
+  rw [decAscii]; simp [h]
+
+theorem decAscii_ge (n : Nat) (h : ¬ n < 10) : decAscii n = decAscii (n / 10) ++ [48 + n % 10] := by
+  rw [decAscii]; simp [h]
+
+/-- decimal digits are the ASCII codes `0`…`9` (in particular no comma, no bracket) -/
+theorem decAscii_digits (n : Nat) : ∀ c ∈ decAscii n, 48 ≤ c ∧ c ≤ 57 := by
+  induction n using Nat.strongRecOn with
+  | _ n ih =>
+    by_cases h : n < 10
+    · rw [decAscii_lt n h]; intro c hc; simp at hc; omega
+    · rw [decAscii_ge n h]
+      intro c hc
+      simp only [List.mem_append, List.mem_singleton] at hc
+      rcases hc with hc | hc
+      · exact ih (n / 10) (by omega) c hc
+      · have := Nat.mod_lt n (show 10 > 0 by omega); omega
+
+/-- value of a string of decimal digits -/
+def decVal (l : Bytes) : Nat := l.foldl (fun acc c => acc * 10 + (c - 48)) 0
+
+private theorem decVal_append (l : Bytes) (c : Nat) : decVal (l ++ [c]) = decVal l * 10 + (c - 48) := by
+  simp [decVal, List.foldl_append]
+
+theorem decVal_decAscii (n : Nat) : decVal (decAscii n) = n := by
+  induction n using Nat.strongRecOn with
+  | _ n ih =>
+    by_cases h : n < 10
+    · rw [decAscii_lt n h]; simp [decVal]
+    · rw [decAscii_ge n h, decVal_append, ih (n / 10) (by omega)]
+      omega
+
+/-- the decimal text form determines the number -/
+theorem decAscii_injective {a b : Nat} (h : decAscii a = decAscii b) : a = b := by
+  have := congrArg decVal h
+  rwa [decVal_decAscii, decVal_decAscii] at this
+
+/-- two strings `digits , rest` that are equal have the same digits and the same rest -/
+private theorem split_at_comma : ∀ (a b r s : Bytes), (∀ c ∈ a, c ≠ 44) → (∀ c ∈ b, c ≠ 44) →
+    a ++ (44 :: r) = b ++ (44 :: s) → a = b ∧ r = s := by
+  intro a
+  induction a with
+  | nil =>
+    intro b r s _ hb h
+    cases b with
+    | nil => simp at h; exact ⟨rfl, h⟩
+    | cons y ys =>
+      simp only [List.nil_append, List.cons_append, List.cons.injEq] at h
+      exact absurd h.1.symm (hb y (by simp))
+  | cons x xs ih =>
+    intro b r s ha hb h
+    cases b with
+    | nil =>
+      simp only [List.nil_append, List.cons_append, List.cons.injEq] at h
+      exact absurd h.1 (ha x (by simp))
+    | cons y ys =>
+      simp only [List.cons_append, List.cons.injEq] at h
+      obtain ⟨e1, e2⟩ := ih ys r s (fun c hc => ha c (by simp [hc])) (fun c hc => hb c (by simp [hc])) h.2
+      exact ⟨by rw [h.1, e1], e2⟩
+
+private theorem beNat_aux (l : Bytes) : ∀ acc, l.foldl (fun acc x => acc * 256 + x) acc = acc * 256 ^ l.length + beNat l := by
+  induction l with
+  | nil => intro acc; simp [beNat]
+  | cons x xs ih =>
+    intro acc
+    simp only [List.foldl_cons, List.length_cons, beNat]
+    rw [ih (acc * 256 + x), ih (0 * 256 + x)]
+    simp only [Nat.zero_mul, Nat.zero_add, Nat.pow_succ]
+    rw [Nat.add_mul, Nat.mul_assoc, Nat.mul_comm 256, Nat.add_assoc]
+
+theorem beNat_cons (x : Nat) (xs : Bytes) : beNat (x :: xs) = x * 256 ^ xs.length + beNat xs := by
+  have := beNat_aux xs (0 * 256 + x)
+  simp only [Nat.zero_mul, Nat.zero_add] at this
+  simpa [beNat] using this
+
+theorem beNat_lt (l : Bytes) (h : IsBytes l) : beNat l < 256 ^ l.length := by
+  induction l with
+  | nil => simp [beNat]
+  | cons x xs ih =>
+    rw [beNat_cons, List.length_cons, Nat.pow_succ]
+    have hx : x < 256 := h x (by simp)
+    have := ih (fun z hz => h z (by simp [hz]))
+    have h2 : x * 256 ^ xs.length ≤ 255 * 256 ^ xs.length := Nat.mul_le_mul_right _ (by omega)
+    omega
+
+/-- the big-endian value determines a byte string of known length -/
+theorem beNat_injective : ∀ (a b : Bytes), a.length = b.length → IsBytes a → IsBytes b → beNat a = beNat b → a = b := by
+  intro a
+  induction a with
+  | nil => intro b hl _ _ _; cases b with
+    | nil => rfl
+    | cons _ _ => simp at hl
+  | cons x xs ih =>
+    intro b hl ha hb h
+    cases b with
+    | nil => simp at hl
+    | cons y ys =>
+      simp only [List.length_cons, Nat.add_right_cancel_iff] at hl
+      rw [beNat_cons, beNat_cons, hl] at h
+      have hx := beNat_lt xs (fun z hz => ha z (by simp [hz]))
+      have hy := beNat_lt ys (fun z hz => hb z (by simp [hz]))
+      rw [hl] at hx
+      have hP : 0 < 256 ^ ys.length := Nat.pow_pos (by omega)
+      have e1 : x = y := by
+        have d1 : (x * 256 ^ ys.length + beNat xs) / 256 ^ ys.length = x := by
+          rw [Nat.mul_comm, Nat.mul_add_div hP, Nat.div_eq_of_lt hx, Nat.add_zero]
+        have d2 : (y * 256 ^ ys.length + beNat ys) / 256 ^ ys.length = y := by
+          rw [Nat.mul_comm, Nat.mul_add_div hP, Nat.div_eq_of_lt hy, Nat.add_zero]
+        rw [← d1, ← d2, h]
+      subst e1
+      have e2 : beNat xs = beNat ys := by omega
+      rw [ih ys hl (fun z hz => ha z (by simp [hz])) (fun z hz => hb z (by simp [hz])) e2]
+
+/-- **`Public.String()` determines the key, for every modelled suite** (Ed25519: hex of the
+encoding; P256: `(X,Y)` in decimal; bn256.G1: `bn256.G1(hex X,hex Y)`): two keys (byte strings in
+the suite's layout) with the same text form are the same key. -/
+theorem c13_keytext_injective (kind : KeyKind) (k₁ k₂ t : Bytes) (h₁ : IsBytes k₁) (h₂ : IsBytes k₂)
+    (e₁ : keyText kind k₁ = some t) (e₂ : keyText kind k₂ = some t) : k₁ = k₂ := by
+  cases kind with
+  | ed25519 =>
+    simp only [keyText, Option.some.injEq] at e₁ e₂
+    exact hexAscii_injective h₁ h₂ (e₁.trans e₂.symm)
+  | other => simp [keyText] at e₁
+  | bn256g1 =>
+    simp only [keyText] at e₁ e₂
+    split at e₁
+    · next l1 =>
+      split at e₂
+      · next l2 =>
+        simp only [Option.some.injEq] at e₁ e₂
+        have h := List.append_cancel_left (e₁.trans e₂.symm)
+        have len : (hexAscii (k₁.take 32)).length = (hexAscii (k₂.take 32)).length := by
+          rw [hexAscii_length, hexAscii_length, List.length_take, List.length_take, l1, l2]
+        obtain ⟨a, b⟩ := List.append_inj h len
+        have b' := List.append_cancel_right (List.append_cancel_left b)
+        have t1 := hexAscii_injective (fun z hz => h₁ z (List.mem_of_mem_take hz)) (fun z hz => h₂ z (List.mem_of_mem_take hz)) a
+        have t2 := hexAscii_injective (fun z hz => h₁ z (List.mem_of_mem_drop hz)) (fun z hz => h₂ z (List.mem_of_mem_drop hz)) b'
+        rw [← List.take_append_drop 32 k₁, ← List.take_append_drop 32 k₂, t1, t2]
+      · simp at e₂
+    · simp at e₁
+  | p256 =>
+    simp only [keyText] at e₁ e₂
+    split at e₁
+    · next l1 =>
+      split at e₂
+      · next l2 =>
+        simp only [Option.some.injEq] at e₁ e₂
+        have h := List.append_cancel_left (e₁.trans e₂.symm)
+        have nocomma : ∀ n, ∀ c ∈ decAscii n, c ≠ 44 := fun n c hc => by
+          have := decAscii_digits n c hc; omega
+        have hsplit := split_at_comma _ _ _ _ (nocomma _) (nocomma _) (by simpa [ascii, -List.drop_one] using h)
+        obtain ⟨a, b⟩ := hsplit
+        have b' := List.append_cancel_right b
+        have x := decAscii_injective a
+        have y := decAscii_injective b'
+        have lx : ((k₁.drop 1).take 32).length = ((k₂.drop 1).take 32).length := by
+          simp only [List.length_take, List.length_drop, l1.1, l2.1]
+        have ly : (k₁.drop 33).length = (k₂.drop 33).length := by
+          simp only [List.length_drop, l1.1, l2.1]
+        have bx := beNat_injective _ _ lx
+          (fun z hz => h₁ z (List.mem_of_mem_drop (List.mem_of_mem_take hz)))
+          (fun z hz => h₂ z (List.mem_of_mem_drop (List.mem_of_mem_take hz))) x
+        have by' := beNat_injective _ _ ly
+          (fun z hz => h₁ z (List.mem_of_mem_drop hz)) (fun z hz => h₂ z (List.mem_of_mem_drop hz)) y
+        -- put the three parts together: the head byte 4, X, Y
+        have dec : ∀ k : Bytes, k.length = 65 → k.head? = some 4 → k = 4 :: ((k.drop 1).take 32 ++ k.drop 33) := by
+          intro k hl hh
+          cases k with
+          | nil => simp at hl
+          | cons z zs =>
+            simp only [List.head?_cons, Option.some.injEq] at hh
+            subst hh
+            simp only [List.drop_succ_cons, List.drop_zero, List.cons.injEq, true_and]
+            exact (List.take_append_drop 32 zs).symm
+        rw [dec k₁ l1.1 l1.2, dec k₂ l2.1 l2.2, bx, by']
+      · simp at e₂
+    · simp at e₁
+
+/-- so server and node identifiers separate the keys of every modelled suite (hypothesis: the UUID
+hash does not collide on the two pre-images) -/
+theorem c13_suite_key_ids_distinct (H : HashFns) (kind : KeyKind) (k₁ k₂ t₁ t₂ : Bytes) (h₁ : IsBytes k₁) (h₂ : IsBytes k₂)
+    (e₁ : keyText kind k₁ = some t₁) (e₂ : keyText kind k₂ = some t₂) (hne : k₁ ≠ k₂) :
+    ((uuid5 H (serverPreStr t₁) = uuid5 H (serverPreStr t₂) → serverPreStr t₁ = serverPreStr t₂) →
+      serverIdStr H t₁ ≠ serverIdStr H t₂) ∧
+    ((uuid5 H (nodePreStr t₁) = uuid5 H (nodePreStr t₂) → nodePreStr t₁ = nodePreStr t₂) →
+      nodeIdStr H t₁ ≠ nodeIdStr H t₂) := by
+  constructor
+  · intro hcf h
+    have : t₁ = t₂ := List.append_cancel_left (hcf h)
+    subst this
+    exact hne (c13_keytext_injective kind k₁ k₂ t₁ h₁ h₂ e₁ e₂)
+  · intro hcf h
+    have : t₁ = t₂ := hcf h
+    subst this
+    exact hne (c13_keytext_injective kind k₁ k₂ t₁ h₁ h₂ e₁ e₂)
+
 /-! ### rotations of a roster -/
 
 private theorem rosterKeys_head (l : List Member) : (rosterKeys l).head? = l.head?.map (·.key) := by
